@@ -52,9 +52,11 @@ def _weight(t):
     return 40 + len(t["ev"]) * max(1, t.get("w", 1))
 
 
-def validate(traces, timeout=3000):
+def validate(traces, timeout=3000, coverage=False):
     """Validate `traces` with SVSemTrace in parallel single-worker TLC processes; chunks balanced by
-    design size x cycles.  Returns (runs, [((err, pos), info)])."""
+    design size x cycles.  Returns (runs, [((err, pos), info)]).
+    (TLC's -coverage instrumentation slows the deeply recursive interpreter down by orders of magnitude,
+    so it is switched on only for the small dedicated run of check_coverage.)"""
     if not traces:
         return [], []
     ncpu = min(os.cpu_count() or 4, 16)
@@ -81,7 +83,7 @@ def validate(traces, timeout=3000):
         with open(fn, "w") as f:
             json.dump({"traces": [{"d": traces[i]["d"], "mode": traces[i]["mode"], "ev": traces[i]["ev"]} for i in idx]}, f)
         r = tlc.run("SVSemTrace", env={"VERIF_INPUT": fn}, workers=1, timeout=timeout, deadlock=False, light=True,
-                    coverage=True)
+                    coverage=coverage)
         os.unlink(fn)
         if r.errors or r.violated:
             raise MachineryError("trace spec SVSemTrace failed: %s %s\n%s" % (r.errors, r.violated, r.out[-3000:]))
@@ -199,8 +201,6 @@ def run_batch(res, backend, specs, nrand, ncyc, seed_tag, label, cross=False):
     B.vi = vi
     for r in runs:
         res.add_tlc(r)
-        for a, (_d, n) in r.coverage.items():
-            B.coverage[a] = B.coverage.get(a, 0) + n
     # second opinion for designs with signed (integer) variables: signedness ignored
     retry = [i for i, (t, (v, info)) in enumerate(zip(traces, vi))
              if t["mode"] == "run" and v[0] != "ok" and has_signed(t["d"])]
@@ -516,9 +516,21 @@ def canaries(res, batches, R, n=12, portmap=False):
 
 def check_coverage(res, batches, need_flat=False):
     cov, clauses, ncmp, nflat = {}, {}, 0, 0
+    # TLC's own per-action coverage, measured on a few small accepted traces (one drivers trace included)
+    small = []
     for B in batches:
-        for a, n in B.coverage.items():
-            cov[a] = cov.get(a, 0) + n
+        for t, (v, info) in zip(B.traces, B.vi):
+            if v[0] == "ok" and t.get("w", 1) * max(1, len(t["ev"])) < 3000:
+                small.append(t)
+    small.sort(key=lambda t: (t["mode"] != "drv", t.get("w", 1) * len(t["ev"]), t["tag"]))
+    pick = [t for t in small if t["mode"] == "drv"][:1] + [t for t in small if t["mode"] == "run"][:3]
+    if pick:
+        runs, _ = validate(pick, coverage=True)
+        for r in runs:
+            res.add_tlc(r)
+            for a, (_d, n) in r.coverage.items():
+                cov[a] = cov.get(a, 0) + n
+    for B in batches:
         for c, n in B.clauses.items():
             clauses[c] = clauses.get(c, 0) + n
         ncmp += B.ncmp
